@@ -411,6 +411,13 @@ func init() {
 		d := smt.BVSub(t, u)
 		// the zero Time (year 1) is centuries away from any clock reading: Sub saturates
 		zero := smt.BVC(64, 0)
+		// a clock reading is never the zero Time (time.Now asserts now >= 1)
+		isReading := func(x *smt.Term) bool {
+			return x.Op == "int2bv" && len(x.Args) == 1 && x.Args[0].Op == "var" && strings.HasPrefix(x.Args[0].S, "now_")
+		}
+		if isReading(t) && isReading(u) {
+			return d
+		}
 		uz := smt.And(smt.Eq(u, zero), smt.Not(smt.Eq(t, zero)))
 		tz := smt.And(smt.Eq(t, zero), smt.Not(smt.Eq(u, zero)))
 		if uz.IsFalse() && tz.IsFalse() {
